@@ -265,6 +265,18 @@ def cls_out_of_window(rnd):
     return m, gen.render(m)
 
 
+def cls_grammar(rnd):
+    """random derivations of the repo's own grammar (vlib.gramfuzz): whole files, and single statements of every
+    kind embedded in a small valid project"""
+    from .. import gramfuzz
+    G = gramfuzz.load()
+    if rnd.random() < 0.3:
+        return dict(res=60, grammar=True), gramfuzz.generate(rnd)
+    nts = [n for n in ("task", "task", "task", "resource", "resource", "shift", "taskreport", "global_attribute", "account", "resourcereport", "textreport")
+           if n in G["rules"]]
+    return dict(res=60, grammar=True), gramfuzz.embed(rnd, rnd.choice(nts))
+
+
 BOUNDARY = ["0", "-1", "99999999999", "2025-02-30", "2025-13-01", "0000-00-00", "9999-12-31", "1970-01-01", "+0d", "+100000y", "25:00", "00:60", '""', "{", "}", "${x}",
             "!!!!", "1e309", "0.0000001h", "effort", "task", "\\", "\x00", "é", "2025-03-03-24:00", "1min", "60min"]
 
@@ -322,7 +334,8 @@ def cls_fixture(rnd):
 CLASSES = [("valid", cls_valid, 3), ("cycle", cls_cycle, 2), ("bounds-past-end", cls_bounds_past_end, 2), ("never-works", cls_never_works, 2), ("efforts", cls_efforts, 2),
            ("unknown-empty-duration-resolution", cls_unknown_and_empty, 2), ("many-leaves", cls_many_leaves, 1), ("many-leave-lines", cls_leaves_many, 1),
            ("scenarios-group-limits", cls_scenarios_limits, 1), ("corrupted", cls_corrupted, 6), ("fixture", cls_fixture, 1),
-           ("gaplength-maxgap", cls_gaplength, 2), ("macros", cls_macros, 2), ("out-of-window", cls_out_of_window, 3)]
+           ("gaplength-maxgap", cls_gaplength, 2), ("macros", cls_macros, 2), ("out-of-window", cls_out_of_window, 3),
+           ("grammar-derivation", cls_grammar, 6)]
 
 
 def unwrap(e):
